@@ -113,31 +113,16 @@ Theorem C32_writer_result_decides :
 Proof. exact writer_error_reported. Qed.
 Print Assumptions C32_writer_result_decides.
 
-(** FULL STATEMENT of the last clause ("... or with an error that states how many points were
-    dropped"): for a well-formed accepted request whose engine write is partial (dropped = d) the
-    answer carries dropped = d.  REFUTED when the LoggingPointsWriter cannot log the failure: it
-    then returns the LOGGING error (log bucket not found / finder error / log write error)
-    instead of the original one, and the handler answers a plain 500 without the count.
-    Replayed on the real handler + real storage.LoggingPointsWriter (known finding
-    logging-writer-loses-dropped-count). *)
-Theorem C32_partial_write_reports_dropped_refuted :
-  let q := {| q_auth := true; q_prec_valid := true; q_bucket_param := true; q_gzip_header := true;
-     q_org_found := true; q_bucket_found := true; q_perm := true; q_prec := P_ns; q_limit := 0;
-     q_stream := {| u_rem := [109; 32; 102; 61; 49; 32; 49; 10]%N; u_end := EndEOF; u_eager := false; u_stall := 0 |};
-     q_writer := WPartial 2; q_logger := LWrap 1 true |} in
-  handle [] q = {| r_status := 500; r_code := C_INTERNAL; r_rejected := []; r_dropped := None;
-                   r_calls := [[([109]%N, 1%Z)]] |}.
-Proof. vm_compute. reflexivity. Qed.
-Print Assumptions C32_partial_write_reports_dropped_refuted.
-
-(** Strongest true weakening: without the wrapper, or when its logging works (log bucket found
-    and log write succeeds): 204 iff the engine returned nil; a partial write is answered 422
-    with the dropped count in the message; any other engine error 500. *)
-Theorem C32_writer_error_reported_partial :
+(** The last clause, FULL (since the fix of finding logging-writer-loses-dropped-count): with or
+    without the LoggingPointsWriter and whatever its logging does (log bucket found or not,
+    finder failing, log write failing): 204 iff the engine returned nil; a partial write is
+    answered 422 with the dropped count in the message; any other engine error 500.  (Behind
+    the wrapper a batch without any point never reaches the engine: 204.) *)
+Theorem C32_writer_error_reported :
   forall script q,
     precheck q = None -> u_end (q_stream q) = EndEOF -> accepted_size q -> progresses q ->
     (forall t, In t (candidate_lines (u_rem (q_stream q))) -> is_ok (parse_point (q_prec q) DFLT t) = true) ->
-    (q_logger q = LNone \/ (exists ok, q_logger q = LWrap 0 ok /\ ok = true) /\ parsed_points q <> []) ->
+    (q_logger q = LNone \/ parsed_points q <> []) ->
     handle script q =
       match q_writer q with
       | WOk => {| r_status := 204; r_code := C_NONE; r_rejected := []; r_dropped := None; r_calls := [all_points q] |}
@@ -147,7 +132,19 @@ Theorem C32_writer_error_reported_partial :
                    r_calls := [all_points q] |}
       end.
 Proof. exact writer_error_reported_plain. Qed.
-Print Assumptions C32_writer_error_reported_partial.
+Print Assumptions C32_writer_error_reported.
+
+(** Before that fix a failing logging attempt replaced the original error: a partial write
+    (dropped = 2) with no log bucket was handed to the handler as a plain error (-> 500 without
+    the count); now the PartialWriteError itself comes back (-> 422 dropped=2). *)
+Example C32_logging_before_fix_counterexample :
+  logging_write_before_fix (LWrap 1 true) (WPartial 2) 3 = (EOther, true) /\
+  logging_write (LWrap 1 true) (WPartial 2) 3 = (EPartial 2, true) /\
+  r_dropped (handle [] {| q_auth := true; q_prec_valid := true; q_bucket_param := true; q_gzip_header := true;
+     q_org_found := true; q_bucket_found := true; q_perm := true; q_prec := P_ns; q_limit := 0;
+     q_stream := {| u_rem := [109; 32; 102; 61; 49; 32; 49; 10]%N; u_end := EndEOF; u_eager := false; u_stall := 0 |};
+     q_writer := WPartial 2; q_logger := LWrap 1 true |}) = Some 2%N.
+Proof. vm_compute. repeat split; reflexivity. Qed.
 
 (** The engine is called at most once with the batch, only for a request that passed every
     check with no malformed line, and then with all points; the answer is 204 iff it returned
